@@ -14,7 +14,7 @@ ASSUMPTIONS = [
     'exact reals: the accumulated parameter u += u_jump does not drift (in floats it can exceed 1.0 by one ulp for some sample sizes - outside the claim)',
 ]
 OUTSIDE = ['binary32 rounding of binary STL (struct.pack of a symbolic number is modelled as an exact field), OBJ vertex normals', 'sample sizes > 6 (quick) / 9 (thorough) of the 2..40 range', 'spline trims with symbolic geometry', 'num_procs > 1 in containers']
-BOUNDS = {'quick': 'sample sizes 2..5 (tiling up to 6x5), vertex spacings 1,2,3 dividing n-1; Triangular / Trim / Quad tessellators; rectangular trims (normal and reversed sense); OBJ/OFF/STL of 1-3 surfaces; binary STL (struct.pack model)',
+BOUNDS = {'quick': 'sample sizes 2..5 (tiling up to 6x5), vertex spacings 1,2,3 dividing n-1; Triangular / Trim / Quad tessellators; rectangular trims (normal and reversed sense); OBJ/OFF/STL of 1-3 surfaces; binary STL (struct.pack model); deep copy of a tessellated surface as container element; trim moved between two tessellations',
           'thorough': 'sample sizes to 9, spacing 4'}
 
 
